@@ -351,6 +351,9 @@ type c11World struct {
 type c11Pending struct {
 	req string
 	fin func() (string, error)
+	// late: the same arguments again, the request encoded only after the issuer has evaluated it (the order the
+	// repository's vector generator uses)
+	late func() string
 }
 
 // create builds the request state (client side only) and returns its encoding and a closure that
@@ -371,6 +374,13 @@ func (w *c11World) create(j c11Job) (c11Pending, error) {
 			}
 			t, err := st.FinalizeToken(resp)
 			return hxv(t.Marshal()), err
+		}, func() string {
+			st2, err := type1.NewBasicPrivateClient().CreateTokenRequestWithBlind(j.challenge, j.nonces[0], w.i1.TokenKeyID(), pk, j.blinds[0])
+			if err != nil {
+				return "err"
+			}
+			w.i1.Evaluate(st2.Request())
+			return hxv(st2.Request().Marshal())
 		}}, nil
 	case 2:
 		st, err := type2.NewBasicPublicClient().CreateTokenRequestWithBlind(j.challenge, j.nonces[0], w.i2.TokenKeyID(), w.i2.TokenKey(), j.blinds[0], j.salt)
@@ -384,6 +394,13 @@ func (w *c11World) create(j c11Job) (c11Pending, error) {
 			}
 			t, err := st.FinalizeToken(resp)
 			return hxv(t.Marshal()), err
+		}, func() string {
+			st2, err := type2.NewBasicPublicClient().CreateTokenRequestWithBlind(j.challenge, j.nonces[0], w.i2.TokenKeyID(), w.i2.TokenKey(), j.blinds[0], j.salt)
+			if err != nil {
+				return "err"
+			}
+			w.i2.Evaluate(st2.Request())
+			return hxv(st2.Request().Marshal())
 		}}, nil
 	default:
 		pk := new(oprf.PublicKey)
@@ -403,6 +420,13 @@ func (w *c11World) create(j c11Job) (c11Pending, error) {
 				out += hxv(t.Marshal()) + ","
 			}
 			return out, err
+		}, func() string {
+			st2, err := type5.NewBatchedPrivateClient().CreateTokenRequestWithBlinds(j.challenge, j.nonces, w.i5.TokenKeyID(), pk, j.blinds)
+			if err != nil {
+				return "err"
+			}
+			w.i5.Evaluate(st2.Request())
+			return hxv(st2.Request().Marshal())
 		}}, nil
 	}
 }
@@ -415,6 +439,9 @@ func (w *c11World) alone(j c11Job) string {
 	t, err := p.fin()
 	if err != nil {
 		return "err-finalize " + p.req
+	}
+	if l := p.late(); l != p.req {
+		return "err-request-differs-when-encoded-after-evaluation " + p.req + " " + l
 	}
 	return p.req + " " + t
 }
